@@ -25,6 +25,51 @@ CHECKS = {
    technique="explicit-state model checking of the real push/pull/rekey code with stateright (BFS/DFS over all action histories up to a depth bound) in lockstep with libsodium, plus exhaustive length/AD/tag product sweep",
    text="Every history over a ~31-action protocol alphabet (push with 2 lengths x AD x 4 tags, one- and two-sided rekeys, in-order delivery, 12 kinds of out-of-position/forged delivery) from 12 initial states (incl. counters at 0xfffffffe/0xffffffff) is executed on the real code up to depth 6 (quick) / deepest bound completed (thorough); every transition compares ciphertext bytes, both raw states and accept/reject verdict with libsodium and with a pre-state reference model; then every (state class, mlen, adlen, tag byte) cell is pushed and pulled once.",
    note="Trusted: libsodium 1.0.18 as reference; hook H1 installs raw (key, nonce) states; histories beyond the depth bound and byte values outside the alphabets are not covered."),
+ "C05": dict(
+   engine="E-prod bounded product enumerator (mc/src/c05.rs)", cat="exploration", ref="DESIGN.md §3 C05",
+   technique="bounded exhaustive enumeration: full product of a structured scalar alphabet x a structured point-encoding alphabet (complete integer intervals around every boundary, complete low-order table), each cell through dryoc and libsodium X25519; plus all ordered honest pairs for DH/kx",
+   text="~160 scalars x ~900 (thorough ~10k) point encodings incl. every integer u in [0,512), around p, 2^255, 2^256 and the complete low-order table; base-point multiplication, DH commutativity, box precomputation, kx session keys (classic + object API) against libsodium; kx must refuse every low-order peer.",
+   note="Trusted: libsodium ref10 X25519. The 2^512 input space is represented by the stated structural classes."),
+ "C06": dict(
+   engine="E-prod + E-fault (mc/src/c06.rs)", cat="fault_enumeration", ref="DESIGN.md §3 C06",
+   technique="exhaustive product over seeds x message lengths x modes x APIs for signing (bytes == libsodium), and exhaustive single-fault enumeration for verification (every bit of message/signature/public key, complete S+kL family, complete small-order R x A table, non-canonical encodings, mode cross-over, truncations) with verdict equality against libsodium",
+   text="8 seeds x every length 0..=130 (600 thorough) x 4 contents x pure/combined/pre-hashed x classic/object API; 24 base signatures x ~1.7k faults each; accept/reject must equal libsodium's strict verifier and be reject for every mutation.",
+   note="Trusted: libsodium 1.0.18 strict verification."),
+ "C07": dict(
+   engine="E-prod (mc/src/c07.rs) + Python specification reference (ref/spec_check.py)", cat="exploration", ref="DESIGN.md §3 C07",
+   technique="bounded exhaustive enumeration per primitive (all digest-length x key-length pairs x every input length; constructed Poly1305 operands hitting each carry/reduction boundary; all single-bit core inputs; every 1-/2-byte counter value) compared with two independent references: libsodium in-process and a Python re-computation of a dumped corpus",
+   text="BLAKE2b 2 450 (outlen,keylen) pairs x every length 0..=300 (1100 thorough); SHA-512/HMAC/Poly1305/SipHash every length 0..=1100 x 5 keys x 4 contents; Poly1305 accumulators solved to land exactly on p-2..p+6, 2^130+-6, 2p+-2; HSalsa20/HChaCha20; increment; verify functions reject all 384 single-bit tag mutations.",
+   note="Trusted: libsodium and CPython hashlib/hmac as the two references; values outside the alphabets not covered."),
+ "C08": dict(
+   engine="E-state history-replay explorer over update histories (mc/src/c08.rs)", cat="model_checking", ref="DESIGN.md §3 C08",
+   technique="exhaustive exploration of update-call histories of every incremental interface on fresh real objects: all partitions of every message length into <=3 (4) pieces incl. empty ones, and all sequences over a 14-piece alphabet up to depth 5/6, each compared with the one-shot result of dryoc and libsodium",
+   text="16 interfaces (generic hash classic/object keyed/unkeyed x 3 digest lengths, auth, onetimeauth, SHA-512, incremental signing create+verify); ~75 M histories quick; states = (interface, pending-buffer fill, absorbed-block class), transitions = update calls.",
+   note="Message bytes are a fixed pattern (the automaton is length-driven)."),
+ "C09": dict(
+   engine="E-prod parameter grids (mc/src/c09.rs)", cat="exploration", ref="DESIGN.md §3 C09",
+   technique="bounded exhaustive enumeration of Argon2 parameter grids (every output length 16..=1100, every memory size 8..=129 KiB, passes 1..=6, password/salt lengths, both types, out-of-range rejects), each cell compared with libsodium's argon2_hash / crypto_pwhash",
+   text="Per-dimension exhaustive grids G1-G4 around a common centre plus the G1xG2 sub-product; object API hash_with_salt/verify incl. every single-byte password mutation.",
+   note="Trusted: libsodium's Argon2 (raw argon2_hash symbol). Not a full cross-product of all dimensions (stated)."),
+ "C10": dict(
+   engine="E-prod (mc/src/c10.rs)", cat="exploration", ref="DESIGN.md §3 C10",
+   technique="bounded exhaustive enumeration of password-hash strings: full product passwords x costs in both directions (dryoc-made checked by an independent parser and libsodium's verifier; libsodium-made under dryoc), both algorithms x salt lengths x hash lengths for parse/re-encode, and the complete needs-rehash truth table",
+   text="144 (pw,ops,mem) cells x 2 directions; ~2k (alg, saltlen, hashlen) strings quick / 12.9k thorough; 768 needs_rehash cells vs libsodium and the definition.",
+   note="Trusted: libsodium's PHC encoder/verifier; RNG seam H3."),
+ "C11": dict(
+   engine="E-state bounded call histories with an owned RNG (mc/src/c11.rs)", cat="exploration", ref="DESIGN.md §3 C11",
+   technique="exhaustive enumeration of bounded call histories over the inventory of randomised entry points (each alone x N, all ordered pairs interleaved, hub triples) under an owned deterministic RNG seam and under OsRng; oracle on returned values (no repeat, no all-zero, no constant byte)",
+   text="40 entry points (keygens, key pairs, gen() on containers, sealed-box ephemeral key, stream header, pwhash salts) -> 40 singles x 64/512 calls + 1 560 ordered pairs + triples, in two environments; a source scan lists randomness call sites outside the inventory.",
+   note="OS generator quality not examined; nightly-only entry points (locked containers) are exercised in the nightly leg when built."),
+ "C12": dict(
+   engine="E-prod (mc/src/c12.rs) + Python BLAKE2b reference", cat="exploration", ref="DESIGN.md §3 C12",
+   technique="bounded exhaustive enumeration: full product subkey length 0..=80 x 10 ids x 4 contexts x 5 master keys against libsodium and a Python hashlib.blake2b re-computation; pairwise separation checked over all outputs per key",
+   text="16 200 cells; lengths 16..=64 must equal both references, others must Err; no output equal to or prefix of another.",
+   note="Trusted: libsodium + hashlib."),
+ "C13": dict(
+   engine="E-prod (mc/src/c13.rs)", cat="exploration", ref="DESIGN.md §3 C13",
+   technique="bounded exhaustive enumeration: every box seed length 0..=128 x content, the 32-byte seed alphabet for kx/sign/from_secret_key/ed->x conversion, password-derived pairs, each against libsodium's output or its construction evaluated with libsodium primitives",
+   text="516 box-seed cells, 41 (265 thorough) 32-byte seeds x 4 derivations, 8 password-derived pairs.",
+   note="Dishonest Ed25519 public keys are outside the quantifier."),
  "C14": dict(
    engine="E-state history-replay explorer on the real allocator and kernel (mc/src/pm.rs, nightly build)", cat="model_checking", ref="DESIGN.md §3 C14",
    technique="exhaustive history-replay exploration: every operation sequence up to a depth bound over the type-state API is executed on fresh real protected regions, one process per (container, length); the kernel's view (/proc/self/smaps, VmLck, fork-probe signals) is compared with a type-state reference model after every history",
